@@ -86,16 +86,18 @@ pub open spec fn delegation_shown(w: St, block: BlockInfo, d: Seq<char>, v: Seq<
         &&& ({
             let sh = match o { Some(x) => x, None => Shares { stake: Decimal { atomics: 0 }, rewards: Decimal { atomics: 0 } } };
             let whole = sh.stake.atomics / 1_000_000_000_000_000_000;
-            if whole == 0 { resp.delegation is None } else {
-                &&& resp.delegation matches Some(fd)
+            let p_fits = pending_fits(sh, i, sinfo_apr(w), vo.commission.atomics as nat, block.time);
+            let p = pending_spec(sh, i, sinfo_apr(w), vo.commission.atomics as nat, block.time);
+            // C15, from the statement ("a withdrawal pays exactly the pending reward shown beforehand"): a delegation is
+            // hidden only when there is neither a whole token of stake nor a whole token of pending reward
+            &&& (whole != 0 ==> resp.delegation is Some)
+            &&& (p_fits ==> ((resp.delegation is None) == (whole == 0 && p == 0)))
+            &&& (resp.delegation matches Some(fd) ==> {
                 &&& fd.delegator == a && fd.validator@ == v
                 // the delegation is shown rounded DOWN to whole tokens, in the bonded denomination
                 &&& fd.amount.amount.u == whole && fd.amount.denom@ == sinfo_denom(w) && fd.can_redelegate == fd.amount
-                &&& (pending_fits(sh, i, sinfo_apr(w), vo.commission.atomics as nat, block.time) ==> ({
-                        let p = pending_spec(sh, i, sinfo_apr(w), vo.commission.atomics as nat, block.time);
-                        if p == 0 { fd.accumulated_rewards@.len() == 0 } else { fd.accumulated_rewards@.len() == 1 && fd.accumulated_rewards@[0].amount.u == p && fd.accumulated_rewards@[0].denom@ == sinfo_denom(w) }
-                    }))
-            }
+                &&& (p_fits ==> (if p == 0 { fd.accumulated_rewards@.len() == 0 } else { fd.accumulated_rewards@.len() == 1 && fd.accumulated_rewards@[0].amount.u == p && fd.accumulated_rewards@[0].denom@ == sinfo_denom(w) }))
+            })
         })
     })
 }
@@ -267,7 +269,19 @@ pub axiom fn axiom_router_bank_frame<ExecC, QueryC>(router: &dyn CosmosRouter<Ex
 pub open spec fn pq_due(u: Unbonding, now: Timestamp) -> bool { u.payout_at.nanos <= now.nanos }
 // the housekeeping before paying entry u: only u's stake entry and its validator's info record may change, invariant kept
 pub open spec fn pq_cleaned(w0: St, w1: St, u: Unbonding) -> bool {
-    frame2(w0, w1, u.delegator, u.validator@) && swf(w1)
+    swf(w1) && (w1 == w0 || dust_removed(w0, w1, u.delegator, u.validator@))
+}
+// C14 / C15, from the statements: paying out an unbonding takes nothing else from a delegation.  The one thing the
+// housekeeping may do is drop an entry that holds nothing: less than one token of stake and no accrued rewards; the
+// validator's record loses that staker and keeps its total and its reward clock
+pub open spec fn dust_removed(w0: St, w1: St, d: Addr, v: Seq<char>) -> bool {
+    &&& frame2(w0, w1, d, v)
+    &&& get_shares(w0, d, v) matches Ok(Some(x))
+    &&& x.stake.atomics < dec_one() && x.rewards.atomics == 0
+    &&& !w1.contains_key(k_stake(d, v))
+    &&& get_vinfo(w0, v) matches Ok(Some(i0))
+    &&& get_vinfo(w1, v) matches Ok(Some(i1))
+    &&& i1.stakers@ == i0.stakers@.remove(d) && i1.stake == i0.stake && i1.last_rewards_calculation == i0.last_rewards_calculation
 }
 pub open spec fn pay_msg<ExecC>(u: Unbonding, denom: Seq<char>) -> CosmosMsg<ExecC> {
     send_msg::<ExecC>(u.delegator.s@, seq![Coin { denom: str_of(denom), amount: u.amount }])
@@ -361,6 +375,10 @@ pub open spec fn queue_processed<ExecC, QueryC>(router: &dyn CosmosRouter<ExecC,
 //@   ensures [C14.pq.swf,C15,C16] r is Ok ==> swf(sw(final(storage).view()))
 //@   replace_re "(?P<Q>\\w+)\\s*\\.iter\\(\\)\\s*\\.filter\\(\\|(?P<X>\\w+)\\| (?P<C>[^\\n]*)\\)\\s*\\n\\s*\\.map\\(\\|(?P<Y>\\w+)\\| (?P<E>[^\\n]*)\\)\\s*\\n\\s*\\.sum::<Uint128>\\(\\)" => "{ let mut vx_s = Uint128::zero(); let mut vx_j: usize = 0;\n while vx_j < \\g<Q>.len()\n invariant vx_j <= \\g<Q>@.len(),\n decreases \\g<Q>@.len() - vx_j,\n { let \\g<X> = &\\g<Q>[vx_j]; if \\g<C> { let \\g<Y> = \\g<X>; vx_s = vx_s + \\g<E>; }\n vx_j += 1; }\n vx_s }"
 //@   replace "_ => break," => "_ => { vx_release_ps(staking_storage); break }"
+//@   replace_re? "\\.map\\(\\|mut stake\\| \\{" => ".map(|vx_stake0: Coin| -> (vx_c: Coin) ensures vx_c.amount.u >= vx_stake0.amount.u { let mut stake = vx_stake0;"
+//@   replace_re? "\\|shares\\| !shares\\.rewards\\.is_zero\\(\\)" => "|shares: Shares| -> (vx_b: bool) ensures vx_b == (shares.rewards.atomics != 0) { !shares.rewards.is_zero() }"
+//@   before "re:^\\s*match delegation \\{\\s*$" let ghost dg = delegation;
+//@   after "re:^\\s*\\.map_or\\(false, .*\\);\\s*$" proof { let d = u.delegator; let v = u.validator@; assert(get_shares(w_a, d, v) matches Ok(Some(x)) && (has_rewards == (x.rewards.atomics != 0)) && x.stake.atomics < dec_one()); }
 //@   replace_re? "if (?P<A>\\w+) <= &(?P<B>[\\w.]+) =>" => "if *\\g<A> <= *(&\\g<B>) =>"
 //@   begin broadcast use {axiom_vec_canon, axiom_vec_of_view, axiom_str_canon, axiom_str_of_view, lemma_str_ext_b, lemma_vec_ext_b}; let ghost s0 = storage.view(); proof { axiom_addr_key_laws(); lemma_splice_same(storage.view(), lp(ns_staking())); }
 //@   after "re:^\\s*\\.unwrap_or_default\\(\\);\\s*$" let ghost q0 = unbonding_queue@; proof { assert(q0 == queue_of(sw(s0))); }
@@ -374,7 +392,7 @@ pub open spec fn queue_processed<ExecC, QueryC>(router: &dyn CosmosRouter<ExecC,
 //@   after "re:^\\s*\\} = unbonding_queue\\.pop_front\\(\\)\\.unwrap\\(\\);\\s*$" proof { assert( /*VXCLAUSE C14.pq.only_due*/ (pq_due(u, block.time))); }
 //@   before "re:^\\s*validator_info\\.stakers\\.remove\\(&delegator\\);\\s*$" let ghost vi0 = validator_info; proof { assert(get_vinfo(w_a, validator@) == Ok::<Option<ValidatorInfo>, StdError>(Some(vi0))); }
 //@   after "re:^\\s*\\)\\?;\\s*$@@0" proof { axiom_cw_roundtrip(validator_info); assert(validator_info.stakers@ == vi0.stakers@.remove(delegator)); assert(get_vinfo(staking_storage.view(), validator@) == Ok::<Option<ValidatorInfo>, StdError>(Some(validator_info))); }
-//@   before "re:^\\s*let staking_info = Self::get_staking_info\\(&staking_storage\\)\\?;\\s*$" let ghost w1 = staking_storage.view(); proof { let d = u.delegator; let v = u.validator@; lemma_keys_disjoint(d, v, v); let ks = k_stake(d, v); if w_a.contains_key(ks) && !w1.contains_key(ks) { assert(has_shares(w_a, d, v)); assert(has_staker(w_a, v, d)); assert(frame2(w_a, w1, d, v)); assert(get_vinfo(w_a, v) matches Ok(Some(_))); assert(w1.contains_key(k_vinfo(v))); assert(get_vinfo(w1, v) matches Ok(Some(_))); assert((get_vinfo(w1, v)->Ok_0->0).stakers@ == (get_vinfo(w_a, v)->Ok_0->0).stakers@.remove(d)); lemma_frame2_swf(w_a, w1, d, v); } else { assert(w1 =~= w_a); } assert(pq_cleaned(w_a, w1, u)); }
+//@   before "re:^\\s*let staking_info = Self::get_staking_info\\(&staking_storage\\)\\?;\\s*$" let ghost w1 = staking_storage.view(); proof { let d = u.delegator; let v = u.validator@; lemma_keys_disjoint(d, v, v); let ks = k_stake(d, v); if w_a.contains_key(ks) && !w1.contains_key(ks) { assert(has_shares(w_a, d, v)); assert(has_staker(w_a, v, d)); assert(frame2(w_a, w1, d, v)); assert(get_vinfo(w_a, v) matches Ok(Some(_))); assert(w1.contains_key(k_vinfo(v))); assert(get_vinfo(w1, v) matches Ok(Some(_))); assert((get_vinfo(w1, v)->Ok_0->0).stakers@ == (get_vinfo(w_a, v)->Ok_0->0).stakers@.remove(d)); lemma_frame2_swf(w_a, w1, d, v); assert(dust_removed(w_a, w1, d, v)); } else { assert(w1 =~= w_a); } assert(pq_cleaned(w_a, w1, u)); }
 //@   before "re:^\\s*router\\.execute\\(\\s*$" let ghost s_mid = storage.view(); proof { assert(s_mid == splice(s_it, lp(ns_staking()), w1)); }
 //@   after "re:^\\s*\\)\\?;\\s*$@@1" proof { assert(exists|m: CosmosMsg<ExecC>| router.exec_sem(s_mid, *block, self.module_addr, m).0 is Ok && router.exec_sem(s_mid, *block, self.module_addr, m).1 == storage.view()); }
 //@   after "re:^ {20}\\}\\s*$@@1" proof { let sc = splice(s_it, lp(ns_staking()), w1); lemma_splice_window(s_it, lp(ns_staking()), w1); if u.amount.u != 0 { assert(exists|m: CosmosMsg<ExecC>| router.exec_sem(sc, *block, self.module_addr, m).0 is Ok && router.exec_sem(sc, *block, self.module_addr, m).1 == storage.view()); assert(exists|m: CosmosMsg<ExecC>| m is Bank && (m->Bank_0) is Send && router.exec_sem(sc, *block, self.module_addr, m).0 is Ok && router.exec_sem(sc, *block, self.module_addr, m).1 == storage.view()); assert(exists|m: CosmosMsg<ExecC>| m is Bank && (m->Bank_0) is Send && (m->Bank_0)->to_address@ == u.delegator.s@ && router.exec_sem(sc, *block, self.module_addr, m).0 is Ok && router.exec_sem(sc, *block, self.module_addr, m).1 == storage.view()); assert(exists|m: CosmosMsg<ExecC>| m is Bank && (m->Bank_0) is Send && (m->Bank_0)->to_address@ == u.delegator.s@ && (m->Bank_0)->Send_amount@.len() == 1 && (m->Bank_0)->Send_amount@[0].amount == u.amount && router.exec_sem(sc, *block, self.module_addr, m).0 is Ok && router.exec_sem(sc, *block, self.module_addr, m).1 == storage.view()); assert(exists|m: CosmosMsg<ExecC>| m is Bank && (m->Bank_0) is Send && (m->Bank_0)->to_address@ == u.delegator.s@ && (m->Bank_0)->Send_amount@.len() == 1 && (m->Bank_0)->Send_amount@[0].amount == u.amount && (m->Bank_0)->Send_amount@[0].denom@ == sinfo_denom(w1) && router.exec_sem(sc, *block, self.module_addr, m).0 is Ok && router.exec_sem(sc, *block, self.module_addr, m).1 == storage.view()); let m = choose|m: CosmosMsg<ExecC>| m is Bank && (m->Bank_0) is Send && (m->Bank_0)->to_address@ == u.delegator.s@ && (m->Bank_0)->Send_amount@.len() == 1 && (m->Bank_0)->Send_amount@[0].amount == u.amount && (m->Bank_0)->Send_amount@[0].denom@ == sinfo_denom(w1) && router.exec_sem(sc, *block, self.module_addr, m).0 is Ok && router.exec_sem(sc, *block, self.module_addr, m).1 == storage.view(); lemma_pay_msg::<ExecC>(m, u, sinfo_denom(w1)); axiom_router_bank_frame(router, sc, *block, self.module_addr, m->Bank_0); } assert(w_a == sw(s_it)); assert(pq_cleaned(sw(s_it), w1, u)); if u.amount.u == 0 { assert(storage.view() == sc); } else { let pr = router.exec_sem(sc, *block, self.module_addr, pay_msg::<ExecC>(u, sinfo_denom(w1))); assert(pr.0 is Ok); assert(pr.1 == storage.view()); } assert(pq_step(router, *self, s_it, storage.view(), *block, u)); lemma_pq_inv_step(router, *self, s0, q0, s_it, q_it, storage.view(), *block); }
